@@ -22,11 +22,15 @@ def one(name):
     if any("patch does not apply" in l for l in lines):
         r = {"status": "patch no longer applies to /repo HEAD"}
     else:
-        res = {}
+        import re
+        res, cnt = {}, {}
         for l in lines:
             for cid in ids:
-                if l.startswith(cid + ": "): res[cid] = "caught" if "CAUGHT" in l else "missed"
-        r = {"status": "caught" if res and all(v == "caught" for v in res.values()) else ("partly" if "caught" in res.values() else "MISSED"), "checks": res}
+                if l.startswith(cid + ": "):
+                    res[cid] = "caught" if "CAUGHT" in l else "missed"
+                    m = re.search(r"(\d+) disagreements", l)
+                    if m: cnt[cid] = int(m.group(1))   # how many lines of the run disagreed: a thin catch (1-3 lines) depends on the seed
+        r = {"status": "caught" if res and all(v == "caught" for v in res.values()) else ("partly" if "caught" in res.values() else "MISSED"), "checks": res, "lines": cnt}
     with lock:
         out[name] = r
         print(name, r, flush=True)
